@@ -56,7 +56,7 @@ class Site:
             elif k == 'error':
                 out[path] = Page(500, b'boom', ctype='text/plain')
         other = {'/': Page(200, html(['/x'])), '/x': Page(200, b'x', ctype='text/plain')}
-        return {HOST: out, OTHER: other}
+        return {HOST: _FoldingPages(out), OTHER: other}
 
     def describe(self):
         d = {p: {k: v for k, v in d.items()} for p, d in self.pages.items()}
@@ -119,6 +119,28 @@ def html_varied(links, salt, meta=None):
     return ''.join(parts).encode('utf-8')
 
 
+class _FoldingPages(dict):
+    """The server's view of its paths: repeated slashes name the same resource (as on any file-backed server), so a
+    client that fails to fold them gets the page again instead of a 404."""
+
+    def get(self, key, default=None):
+        if key in self:
+            return dict.get(self, key)
+        path, q, query = key.partition('?')
+        return dict.get(self, re.sub(r'/{2,}', '/', path) + q + query, default)
+
+
+def resource_key(url):
+    """An identity for 'the same resource' that does not use the crawler's own normaliser: host and scheme case, the
+    default port, dot segments, repeated slashes and the fragment do not matter."""
+    import posixpath
+    u = urllib.parse.urlsplit(url)
+    path = re.sub(r'/{2,}', '/', u.path or '/')
+    tail = '/' if path.endswith('/') and path != '/' else ''
+    path = posixpath.normpath(path) + tail if path != '/' else '/'
+    return (u.scheme.lower(), (u.hostname or '').lower(), u.port or {'http': 80, 'https': 443}.get(u.scheme.lower()), path, u.query)
+
+
 FRAGMENT_ONLY_LINKS = True       # the fragment-only join defect (extra request of the directory) was repaired by de6baa6
 
 
@@ -131,6 +153,8 @@ SPELLINGS = [
     lambda p: '/.' + p,
     lambda p: '/zz/..' + p,
     lambda p: '/y/./..' + p,
+    # a doubled slash, in a path without any dot (the crawler folds repeated slashes)
+    lambda p: (p[0] + p[1:].replace('/', '//')) if '/' in p[1:] else 'http://a.test/' + p,
 ]
 
 
@@ -291,8 +315,8 @@ def _gen_options(rng, levelfree=False):
         o['level'] = rng.randint(1, 3)
     if rng.random() < 0.2:
         o['reject_regex'] = rng.choice([r'p1', r'p[23]$', r'/d/'])
-    elif rng.random() < 0.1:
-        o['accept_regex'] = rng.choice([r'a\.test/($|p|d)', r'p[0-5]|test/$'])
+    if rng.random() < 0.15:
+        o['accept_regex'] = rng.choice([r'a\.test/($|p|d)', r'p[0-5]|test/$'])      # with or without a reject pattern
     return o
 
 
@@ -694,7 +718,7 @@ def rows_canon(rows, ids):
 
 # ------------------------------------------------------------------ running the real application with a merged trace
 def run_real(site, opts, seed, concurrent, start_urls=None, workdir=None, db=None, kill_at=None, first_run=True,
-             extra=(), event_sink=None, on_request=None, run_index=0):
+             extra=(), event_sink=None, on_request=None, run_index=0, on_app=None):
     """Run the real crawler; returns (CrawlResult, merged events).
     `event_sink(ev)` is called for every merged event as it happens (kill runs log to a file)."""
     import wpull.processor.web as pw
@@ -750,7 +774,8 @@ def run_real(site, opts, seed, concurrent, start_urls=None, workdir=None, db=Non
     try:
         res = appsim.run_crawl(urls, site.to_server(run_index), seed=seed,
                                concurrent=concurrent, extra=xargs,
-                               on_table_event=on_table, workdir=workdir, keep_db=db, on_request=on_request)
+                               on_table_event=on_table, workdir=workdir, keep_db=db, on_request=on_request, on_app=on_app,
+                               relative_paths=bool(opts.get('relative_paths')) and workdir is not None)
     finally:
         if tmp_input:
             os.unlink(tmp_input)
